@@ -7,7 +7,7 @@ EXTRA_VO = []
 TRUSTED_BASE = [
     "Coq 8.16.1 kernel; Print Assumptions of every C12 theorem: closed under the global context",
     "PARTIAL: theorems give explicit bijections on the prover's randomness under which the published re-randomised signature elements of BBS (a_bar, b_bar) and PS (sigma_1', sigma_2') coincide for any two valid signatures of the issuer, and show what a reused nonce reveals; together with C07's lemmas the proof material is the same function of fresh randomness whichever credential it came from. Hiding of ElGamal ciphertexts / blinded accumulator witnesses (DDH / DLIN) and fresh OS randomness per presentation are assumed",
-    "search: harness/src/ops_create.rs action link — P1, P2 from the same credentials, P3 from other credentials of the same issuers under the same schema; leaf equality at equal positions, cross-presentation nonce reuse (s1 - s2) == (c1 - c2)*m for every hidden claim, repetition of the publicly computable (resp_i - resp_j)/challenge for every pair of hidden claims, pairing cross-ratio e(P_a,Q_b) == e(P_b,Q_a) for G1 leaves P and G2 leaves Q; a relation true for (P1,P2) and false for (P1,P3) is a link",
+    "search: harness/src/ops_create.rs action link — P1, P2 from the same credentials, P3 from other credentials of the same issuers under the same schema; leaf equality at equal positions, cross-presentation nonce reuse (s1 - s2) == (c1 - c2)*m for every hidden claim, repetition of the publicly computable (resp_i - resp_j)/challenge for every pair of hidden claims and of (byte_resp_i - byte_resp_0)/challenge for the byte proofs of decryptable encryptions, pairing cross-ratio e(P_a,Q_b) == e(P_b,Q_a) for G1 leaves P and G2 leaves Q; a relation true for (P1,P2) and false for (P1,P3) is a link",
 ]
 ASSUMPTIONS = ["DDH / DLIN, OS randomness", "disclosed claims and deliberately derived pseudonyms are excluded by the property"]
 
@@ -18,7 +18,8 @@ def explore(ctx):
     n = 300 if tier == "thorough" else 48
     cs = []
     for i in range(n):
-        s = CC.gen(rng, "ps" if i % 2 else "bbs", n_creds=2, kinds=["rev", "comm", "range", "venc"], shared_issuer=True)
+        heavy = (i % 6 == 0)
+        s = CC.gen(rng, "ps" if i % 2 else "bbs", n_creds=2, kinds=["rev", "comm", "range", "venc"] + (["vencdec", "vdec"] if heavy else []), heavy=heavy, shared_issuer=True)
         # one signature statement on credential 0; credential 1 (same issuer, same shape) is the alternative
         # the alternative credential satisfies the same range statements (same numbers), everything else differs
         for j, cl in enumerate(s["creds"][0]["claims"]):
@@ -54,7 +55,7 @@ def explore(ctx):
     return {
         "evaluations": len(cs),
         "distinct_nontrivial": len(distinct),
-        "rule": "cases = (credential pair of one issuer and schema, presentation schema with a signature statement and revocation / commitment / range / encryption statements on it, same or different nonce): three presentations P1, P2 (same credential) and P3 (other credential) via Presentation::create; linking catalogue evaluated on (P1,P2) and (P1,P3); distinct by (suite, statements, nonce mode)",
+        "rule": "cases = (credential pair of one issuer and schema, presentation schema with a signature statement and revocation / commitment / range / encryption (with and without scalar decryption) / encrypt-and-decrypt statements on it, same or different nonce): three presentations P1, P2 (same credential) and P3 (other credential) via Presentation::create; linking catalogue evaluated on (P1,P2) and (P1,P3); distinct by (suite, statements, nonce mode)",
         "samples": samples or [{}],
         "histograms": hist,
         "failures": failures,
